@@ -16,7 +16,8 @@ pub struct Cfg {
     pub unescaped_gt: bool,
     /// 0 none, 1 bare, 2 encoding, 3 standalone yes, 4 standalone no, 5 encoding + standalone
     pub declaration: u32,
-    /// None = no indentation; Some(mask) = indentation with suppress subset (bit 0: a, bit 1: b)
+    /// None = no indentation; Some(mask) = indentation with a suppress list: bits 0-2 say whether a, b, c are on it,
+    /// bits 4-6 give the order of the list (index of the permutation of the members taken in the order a, b, c)
     pub indent: Option<u32>,
     /// serialise the document node (false: the top element as an element-rooted subtree)
     pub from_document: bool,
@@ -32,6 +33,7 @@ pub struct Case {
 fn params(xot: &mut Xot, cfg: &Cfg) -> Parameters {
     let a = xot.add_name("a");
     let b = xot.add_name("b");
+    let c = xot.add_name("c");
     let names = |mask: u32| {
         let mut v = vec![];
         if mask & 1 != 0 {
@@ -40,7 +42,18 @@ fn params(xot: &mut Xot, cfg: &Cfg) -> Parameters {
         if mask & 2 != 0 {
             v.push(b);
         }
-        v
+        if mask & 4 != 0 {
+            v.push(c);
+        }
+        // the list order is the caller's business: take the (mask >> 4)-th permutation
+        let mut k = (mask >> 4) as usize;
+        let mut out = vec![];
+        while !v.is_empty() {
+            let n = v.len();
+            out.push(v.remove(k % n));
+            k /= n;
+        }
+        out
     };
     Parameters {
         indentation: cfg.indent.map(|m| Indentation { suppress: names(m) }),
@@ -84,7 +97,7 @@ fn aligned(exp: &A, got: &A, cx: &Ctxt, suppress: u32) -> Result<(), String> {
         if exp.ch.iter().any(|c| c.k == K::Text) {
             no_indent = true;
         }
-        if (exp.name == "a" && suppress & 1 != 0) || (exp.name == "b" && suppress & 2 != 0) {
+        if (exp.name == "a" && suppress & 1 != 0) || (exp.name == "b" && suppress & 2 != 0) || (exp.name == "c" && suppress & 4 != 0) {
             no_indent = true;
         }
         if let Some(sp) = exp.attrs.iter().find(|x| x.ns == XML_NS && x.name == "space") {
@@ -225,6 +238,7 @@ fn extra(i: usize) -> Option<A> {
         1 => Some(A::el("", "c")),
         2 => Some(A::text("t")),
         3 => Some(A::comment("c")),
+        4 => Some(A::text(" ")),
         _ => None,
     }
 }
@@ -279,15 +293,59 @@ fn indent_sweep_case(tier: Tier, mut i: u64) -> Case {
     Case { tree: A::doc(vec![inner.unwrap()]), cfg: Cfg { cdata: 0, unescaped_gt: false, declaration: 0, indent: Some((cfgi % 4) as u32), from_document: cfgi / 4 == 0 } }
 }
 
+const INDENTS: [u32; 5] = [0, 1, 2, 3, 3 | 1 << 4];
+
+/// chains of depth <= 2 with the whitespace-only text extra as well, under every suppress list incl. [b, a]
+fn ws_sweep_cases() -> Vec<Case> {
+    let mut out = vec![];
+    for d1 in 0..100u32 {
+        let lv = |d: u32, name: &str, inner: Option<A>| level(name, (d / 25) as usize, ((d / 5) % 5) as usize, (d % 5) as usize, inner);
+        let mut trees = vec![lv(d1, "a", None)];
+        for d2 in 0..100u32 {
+            trees.push(lv(d1, "a", Some(lv(d2, "b", None))));
+        }
+        for t in trees {
+            for m in INDENTS {
+                for from_document in [true, false] {
+                    out.push(Case { tree: A::doc(vec![t.clone()]), cfg: Cfg { cdata: 0, unescaped_gt: false, declaration: 0, indent: Some(m), from_document } });
+                }
+            }
+        }
+    }
+    out
+}
+
+/// <r> with three children over {a, b, c}, each with element-only content, x every ordered sublist of {a, b, c} as
+/// suppress list (name ids follow the order of first occurrence in the document, so every relation between list
+/// order and id order occurs)
+fn suppress_list_cases() -> Vec<Case> {
+    let mut out = vec![];
+    let names = ["a", "b", "c"];
+    for i in 0..27usize {
+        let kids: Vec<A> = [i / 9, (i / 3) % 3, i % 3].iter().map(|k| A::el("", names[*k]).child(A::el("", "x").child(A::el("", "y")))).collect();
+        let tree = A::doc(vec![A::el("", "r").kids(kids)]);
+        for members in 0..8u32 {
+            let n = members.count_ones();
+            let perms = [1u32, 1, 2, 6][n as usize];
+            for p in 0..perms {
+                for from_document in [true, false] {
+                    out.push(Case { tree: tree.clone(), cfg: Cfg { cdata: 0, unescaped_gt: false, declaration: 0, indent: Some(members | p << 4), from_document } });
+                }
+            }
+        }
+    }
+    out
+}
+
 fn general_cases(tier: Tier) -> Vec<Case> {
-    let al = TreeAlphabet { elements: vec![A::el("", "a"), A::el("", "b")], leaves: vec![A::text("t"), A::text("]]>"), A::comment("c")], adjacent_text: false };
+    let al = TreeAlphabet { elements: vec![A::el("", "a"), A::el("", "b")], leaves: vec![A::text("t"), A::text("]]>"), A::text(" "), A::comment("c")], adjacent_text: false };
     let n = tier.pick(4, 5);
     let mut out = vec![];
     for k in 1..=n {
         for t in element_trees(&al, k) {
             for cdata in 0..4 {
                 for gt in [false, true] {
-                    for indent in [None, Some(0), Some(1), Some(2), Some(3)] {
+                    for indent in [None, Some(0), Some(1), Some(2), Some(3), Some(3 | 1 << 4)] {
                         for from_document in [true, false] {
                             out.push(Case { tree: A::doc(vec![t.clone()]), cfg: Cfg { cdata, unescaped_gt: gt, declaration: (k as u32 + cdata) % 6, indent, from_document } });
                         }
@@ -330,6 +388,24 @@ pub fn run(tier: Tier) -> i32 {
             st.fail(&case, f);
         }
     }));
+    let ws = ws_sweep_cases();
+    stats = stats.merge(par_slice(&ctx, &ws, |case, st| {
+        let fails = eval_case(case, st);
+        st.bump("ws_sweep");
+        st.outcome(&("w", case.tree.canon(), format!("{:?}", case.cfg)));
+        for f in fails {
+            st.fail(case, f);
+        }
+    }));
+    let sl = suppress_list_cases();
+    stats = stats.merge(par_slice(&ctx, &sl, |case, st| {
+        let fails = eval_case(case, st);
+        st.bump("suppress_list_sweep");
+        st.outcome(&("s", case.tree.canon(), format!("{:?}", case.cfg)));
+        for f in fails {
+            st.fail(case, f);
+        }
+    }));
     let gc = general_cases(tier);
     stats = stats.merge(par_slice(&ctx, &gc, |case, st| {
         let fails = eval_case(case, st);
@@ -339,12 +415,12 @@ pub fn run(tier: Tier) -> i32 {
             st.fail(case, f);
         }
     }));
-    if let Err(e) = require_nonzero(&stats, &["text_sweep", "indent_sweep", "general", "indentation_added", "cdata_sections_written"]) {
+    if let Err(e) = require_nonzero(&stats, &["text_sweep", "indent_sweep", "ws_sweep", "suppress_list_sweep", "general", "indentation_added", "cdata_sections_written"]) {
         eprintln!("MACHINERY: {}", e);
         return 2;
     }
     let cov = json!({
-        "rule": format!("(1) <a><b>S</b>S</a> for every non-empty S over {{], >, x, CR}} of length <= {} x CDATA-section subsets of {{a,b}} x unescaped_gt x 6 declaration forms; (2) chains of depth <= {} of elements a/b/a/b, each with xml:space in {{absent,preserve,default,other}} and an optional extra (element, text, comment) before and after the nested child x indentation with every suppress subset of {{a,b}} x {{document, element-rooted subtree}}; (3) every element tree with <= {} nodes over a,b,text,']]>' text,comment x CDATA subsets x unescaped_gt x indentation off/on x suppress subsets x root kind; oracle: reparse equals the original, or (indentation) differs only by whitespace-only text nodes outside mixed content, xml:space=preserve scope and suppressed elements", l, tier.pick(3, 4), tier.pick(4, 5)),
+        "rule": format!("(1) <a><b>S</b>S</a> for every non-empty S over {{], >, x, CR}} of length <= {} x CDATA-section subsets of {{a,b}} x unescaped_gt x 6 declaration forms; (2) chains of depth <= {} of elements a/b/a/b, each with xml:space in {{absent,preserve,default,other}} and an optional extra (element, text, comment) before and after the nested child x indentation with every suppress subset of {{a,b}} x {{document, element-rooted subtree}}; (2b) chains of depth <= 2 where the extras also include a whitespace-only text node, x every suppress list incl. [b, a]; (2c) <r> with three children over {{a, b, c}} in every arrangement (so that name ids come in every order) x every ordered sublist of {{a, b, c}} as suppress list; (3) every element tree with <= {} nodes over a,b,text,']]>' text,whitespace-only text,comment x CDATA subsets x unescaped_gt x indentation off/on x suppress subsets x root kind; oracle: reparse equals the original, or (indentation) differs only by whitespace-only text nodes outside mixed content, xml:space=preserve scope and suppressed elements", l, tier.pick(3, 4), tier.pick(4, 5)),
     });
     ctx.finish(stats, cov, vec!["re-parsing uses xot's own parser (the statement is about reparse by xot); parser correctness is C02".into()])
 }
